@@ -117,7 +117,7 @@ let rerr_name (e : Reader.rerr) : string = match e with
   | Reader.EOF -> "EOF" | Reader.UnexpectedEOF -> "UnexpectedEOF" | Reader.NoProgress -> "NoProgress"
   | Reader.BufferFull -> "BufferFull" | Reader.SrcErr -> "SrcErr" | Reader.BadCRLF -> "BadCRLF"
   | Reader.BadRespType -> "BadRespType" | Reader.BadArrayLen -> "BadArrayLen"
-  | Reader.BadArrayLenTooLong -> "BadArrayLenTooLong" | Reader.BadBulkLen -> "BadBulkLen"
+  | Reader.BadArrayLenTooLong -> "BadArrayLenTooLong" | Reader.BadArrayDepth -> "BadArrayDepth" | Reader.BadBulkLen -> "BadBulkLen"
   | Reader.BadBulkLenTooLong -> "BadBulkLenTooLong" | Reader.BadMultiBulkLen -> "BadMultiBulkLen"
   | Reader.BadMultiBulkContent -> "BadMultiBulkContent" | Reader.IntSyntax -> "IntSyntax"
   | Reader.IntRange -> "IntRange" | Reader.OutOfFuel -> "OutOfFuel" | Reader.Impossible -> "Impossible"
@@ -135,14 +135,14 @@ let dec_out (vs, e) =
 let () = register "c10dec" (fun line ->
   match S.split_on_char ' ' line with
   | [bs; e; sz; hx] ->
-    dec_out (Codec.decode_all_chunked Tables.max_array_len Tables.max_bulk_len (n_of_int (int_of_string bs))
+    dec_out (Codec.decode_all_chunked Tables.max_array_len Tables.max_bulk_len Tables.max_array_depth (n_of_int (int_of_string bs))
                (sizes_of sz) (end_of e) (bytes_of_hex hx))
   | _ -> failwith "bad c10dec case")
 
 let () = register "c10decflat" (fun line ->
   match S.split_on_char ' ' line with
   | [bs; e; _; hx] ->
-    dec_out (Codec.decode_all_flat Tables.max_array_len Tables.max_bulk_len (n_of_int (int_of_string bs))
+    dec_out (Codec.decode_all_flat Tables.max_array_len Tables.max_bulk_len Tables.max_array_depth (n_of_int (int_of_string bs))
                (end_of e) (bytes_of_hex hx))
   | _ -> failwith "bad c10dec case")
 
@@ -150,7 +150,7 @@ let () = register "c10enc" (fun line ->
   let toks = Array.of_list (S.split_on_char ' ' line) in
   let v = parse_val toks (ref 0) in
   let bs = Resp.encode (Lazy.force itoa_tab) v in
-  let rt b = dec_out (Codec.decode_all_flat Tables.max_array_len Tables.max_bulk_len (n_of_int b) Reader.EOF bs) in
+  let rt b = dec_out (Codec.decode_all_flat Tables.max_array_len Tables.max_bulk_len Tables.max_array_depth (n_of_int b) Reader.EOF bs) in
   hex_of_bytes bs ^ " " ^ rt 4096 ^ " " ^ rt 32)
 
 let () = register "c10int" (fun line ->
@@ -201,7 +201,7 @@ let () = register "c10canon" (fun line ->
   match S.split_on_char ' ' line with
   | [bs; e; _; hx] ->
     let data = bytes_of_hex hx in
-    let (vs, err) = Codec.decode_all_flat Tables.max_array_len Tables.max_bulk_len (n_of_int (int_of_string bs)) (end_of e) data in
+    let (vs, err) = Codec.decode_all_flat Tables.max_array_len Tables.max_bulk_len Tables.max_array_depth (n_of_int (int_of_string bs)) (end_of e) data in
     if err = Reader.EOF && Resp.encode_list (Lazy.force itoa_tab) vs = data then "canon" else "other"
   | _ -> failwith "bad case")
 
@@ -432,3 +432,34 @@ let () = register "c13plain" (fun line ->
   | _ -> failwith "bad c13 case")
 
 let () = register "c13conc" (fun _ -> "ok")
+
+(* ---------------- C11: redirection outcomes, CLUSTER NODES ---------------- *)
+let () = register "c11resp" (fun line ->
+  let v = parse_val (Array.of_list (S.split_on_char ' ' line)) (ref 0) in
+  let a = "10.7.0.1:7000" and b = "10.7.0.2:7000" in
+  let get = "A2_B676574_B6b" in
+  let ok_at addr = val_string (Resp.Simple (bytes_of_ocaml ("OK@" ^ addr))) in
+  match Redirect.handle_resp v with
+  | Redirect.OComplete r | Redirect.OCompleteRefresh r -> val_string r ^ " | " ^ a ^ "=" ^ get
+  | Redirect.OResend (addr, asking) ->
+    let addr = ocaml_of_bytes addr in
+    if addr = b || addr = a then
+      ok_at addr ^ " | " ^ a ^ "=" ^ get ^ (if asking then " " ^ addr ^ "=A1_B61736b696e67" else "") ^ " " ^ addr ^ "=" ^ get
+    else "DIALERR | " ^ a ^ "=" ^ get
+  | Redirect.OPanic -> "PANIC | " ^ a ^ "=" ^ get
+  | Redirect.ONothing -> "NOREPLY | " ^ a ^ "=" ^ get)
+
+let () = register "c11nodes" (fun line ->
+  match Dispatch.parse_cluster_nodes (bytes_of_hex line) with
+  | Dispatch.CnErr -> "ERR load:err"
+  | Dispatch.CnPanic -> "PANIC"
+  | Dispatch.CnAmbig -> "AMBIG"
+  | Dispatch.CnOk insts ->
+    let ms = L.map (fun (i : Dispatch.instance) ->
+      let slots = L.map (fun z -> int_of_string (dec_of_z z)) i.Dispatch.i_slots in
+      let sum = L.fold_left (fun acc x -> (acc * 31 + x + 7) mod 1000003) 0 slots in
+      let lo = L.fold_left (fun acc x -> if acc = -1 || x < acc then x else acc) (-1) slots in
+      let hi = L.fold_left (fun acc x -> if x > acc then x else acc) (-1) slots in
+      Printf.sprintf "%s@%s#%d:%d:%d:%d[%s]" (hex_of_bytes i.Dispatch.i_id) (hex_of_bytes i.Dispatch.i_addr)
+        (L.length slots) lo hi sum (S.concat "," (L.sort compare (L.map ocaml_of_bytes i.Dispatch.i_replicas)))) insts in
+    S.trim ("OK " ^ S.concat " " (L.sort compare ms)) ^ " load:ok")
